@@ -15,20 +15,11 @@ import traceback
 
 
 def _enable_jax_cache():
-    """persistent XLA compilation cache shared by all workers (pure optimisation: entries are keyed
-    by the compiled computation itself, so it is valid for any version of the code under test)"""
-    d = os.environ.get("VERIF_JAX_CACHE", "/dev/shm/vpbt-jaxcache")
-    if d in ("", "off"):
-        return
-    try:
-        os.makedirs(d, exist_ok=True)
-        import jax
-
-        jax.config.update("jax_compilation_cache_dir", d)
-        jax.config.update("jax_persistent_cache_min_compile_time_secs", 0)
-        jax.config.update("jax_persistent_cache_min_entry_size_bytes", -1)
-    except Exception:
-        pass
+    """Deliberately a no-op. A persistent XLA compilation cache was tried and REMOVED: on this
+    jaxlib (0.5.1, CPU) an eager `jit_while` executable deserialized from a warm cache can run zero
+    iterations (wrong values from lax.while_loop / fori_loop / scan evaluated op by op), i.e. the cache
+    made correct code look wrong. Workers always compile from scratch."""
+    return
 
 
 def main():
@@ -46,7 +37,11 @@ def main():
             with open(replay) as f:
                 body = json.load(f)
             ctx.replaying = True
-            mod.replay(ctx, body["case"])
+            if isinstance(body["case"], dict) and "probe" in body["case"] and hasattr(mod, "probes"):
+                ctx.load_known()
+                mod.probes(ctx)  # a failing probe of a finding that is not listed as open is a violation
+            else:
+                mod.replay(ctx, body["case"])
         else:
             ctx.load_known()
             if int(shard) == 0 and hasattr(mod, "probes"):
